@@ -3,9 +3,9 @@
 
 static const char* const CLS[] = {
     "valid", "abbreviated", "accent-edit", "token-edit", "foreign-word", "empty-token", "separator-edit", "count-edit",
-    "length-edit", "unicode", "raw-bytes", "ambiguous", "wrong-checksum", "reserved-feature", "trailing-space", "case-edit", "byte-edit",
+    "length-edit", "unicode", "raw-bytes", "ambiguous", "wrong-checksum", "reserved-feature", "trailing-space", "case-edit", "byte-edit", "invisible-affix",
 };
-enum { G_VALID, G_ABBREV, G_ACCENT, G_TOKEN, G_FOREIGN, G_EMPTY, G_SEP, G_COUNT, G_LENGTH, G_UNICODE, G_BYTES, G_AMBIG, G_CHECKSUM, G_RESERVED, G_TRAIL, G_CASE, G_BYTEEDIT, G_N };
+enum { G_VALID, G_ABBREV, G_ACCENT, G_TOKEN, G_FOREIGN, G_EMPTY, G_SEP, G_COUNT, G_LENGTH, G_UNICODE, G_BYTES, G_AMBIG, G_CHECKSUM, G_RESERVED, G_TRAIL, G_CASE, G_BYTEEDIT, G_AFFIX, G_N };
 /* code points whose UTF-8 encodings are the byte-wise neighbours of the combining-mark block U+0300-U+036F (CC 80 .. CD AF) */
 static const uint32_t EDGE_CP[] = { 0x2ff, 0x300, 0x33f, 0x340, 0x34f, 0x36f, 0x370, 0x371, 0x37e, 0x37f, 0x380, 0x2c0, 0x3b1 };
 #define N_EDGE_CP (sizeof EDGE_CP / sizeof *EDGE_CP)
@@ -157,6 +157,22 @@ void pv_gen_string(pv_rng* r, unsigned enabled, pv_gstr* g) {
         }
         free(s); s = t;
     }
+    if (cls == G_AFFIX) {
+        /* what editors, terminals, chat programs and copy-and-paste put around or into a phrase without the user seeing it: byte-order
+         * mark, zero-width and directional marks, no-break and ideographic spaces, soft hyphen, tab, CR, LF, quotes.  None of them
+         * belongs to a word or is the separator, so the decoders must treat them like any other foreign character */
+        static const char* const INV[] = { "\xef\xbb\xbf", "\xe2\x80\x8b", "\xe2\x80\x8c", "\xe2\x80\x8d", "\xe2\x80\x8e", "\xe2\x80\x8f", "\xe2\x81\xa0", "\xc2\xa0", "\xc2\xad",
+                                           "\t", "\r", "\n", "\r\n", "\xe3\x80\x80", "\"", "'", "\xe2\x80\x9c", "\xe2\x80\xa8", "\xef\xbf\xbe", "\x7f", "\x01", "\xef\xbb", "\xbb\xbf" };
+        size_t n = strlen(s); int cnt = 1 + (int)pv_randn(r, 2); char* t = pv_xmalloc(n + 16);
+        memcpy(t, s, n + 1);
+        for (int e = 0; e < cnt; ++e) {
+            const char* a = INV[pv_randn(r, sizeof INV / sizeof *INV)]; size_t al = strlen(a), len = strlen(t), at;
+            uint32_t where = pv_randn(r, 4);
+            if (where <= 1) at = 0; else if (where == 2) at = len; else { at = pv_randn(r, (uint32_t)len + 1); while (at < len && ((uint8_t)t[at] & 0xC0) == 0x80) ++at; }
+            memmove(t + at + al, t + at, len - at + 1); memcpy(t + at, a, al);
+        }
+        free(s); s = t;
+    }
     if (cls == G_TRAIL) { size_t n = strlen(s); char* t = pv_xmalloc(n + 8); memcpy(t, s, n); const char* tail = pv_randn(r, 2) ? " " : (pv_randn(r, 2) ? "\xe3\x80\x80" : "\xc2\xa0"); strcpy(t + n, tail); free(s); s = t; }
     if (cls == G_LENGTH) {
         /* pad towards the buffer boundary, or far beyond it */
@@ -186,7 +202,7 @@ void pv_gen_string(pv_rng* r, unsigned enabled, pv_gstr* g) {
         for (size_t i = 0; i < n; ++i) { uint8_t b = (uint8_t)pv_rand64(r); if (pv_randn(r, 6) == 0) b = ' '; s[i] = (char)(b ? b : 0x80); }
         s[n] = 0;
     }
-    if (compose && cls != G_BYTES && cls != G_BYTEEDIT) { char* c = pv_nfc_alloc(s); free(s); s = c; }
+    if (compose && cls != G_BYTES && cls != G_BYTEEDIT && cls != G_AFFIX) { char* c = pv_nfc_alloc(s); free(s); s = c; }
     g->s = pv_exact_str(s);          /* exact-size block: a read past the terminator hits a red zone */
     free(s);
     g->len = strlen(g->s);
